@@ -914,6 +914,13 @@ struct C12Info {
     hier_refused: usize,
     cypher_used: usize,
     import_refused: bool,
+    /// largest live relationship id >= 64 (the export's id bitmap needs a second word)
+    edge_ids_cross_word: bool,
+    /// live relationship (or node) ids have holes: largest id > number of live ones
+    ids_with_holes: bool,
+    node_ids_cross_word: bool,
+    /// the live relationship ids need more bitmap words than their number suggests
+    edge_words_by_count_lt_by_max: bool,
 }
 
 fn has_exotic_value(d: &XDump) -> bool {
@@ -931,7 +938,19 @@ fn has_exotic_value(d: &XDump) -> bool {
 fn c12_eval(case: &GraphCase, enabled: u16) -> (Verdict, C12Info) {
     let built = build_store(case);
     let orig = xdump(&built.store);
+    let (edge_max, edge_cnt) = {
+        let es = built.store.all_edges();
+        (es.iter().map(|e| e.id.as_u64()).max().unwrap_or(0), es.len() as u64)
+    };
+    let (node_max, node_cnt) = {
+        let ns = vcheck::dump::live_node_ids(&built.store);
+        (ns.iter().map(|n| n.as_u64()).max().unwrap_or(0), ns.len() as u64)
+    };
     let mut info = C12Info {
+        edge_ids_cross_word: edge_max >= 64,
+        ids_with_holes: edge_max > edge_cnt || node_max > node_cnt,
+        node_ids_cross_word: node_max >= 64,
+        edge_words_by_count_lt_by_max: edge_cnt / 64 < edge_max / 64,
         nontrivial: !orig.edges.is_empty() && has_exotic_value(&orig),
         edges: orig.edges.len(),
         nodes: orig.nodes.len(),
@@ -1187,6 +1206,88 @@ fn graph_strategy(clean: bool, history: bool, max_nodes: usize, max_edges: usize
         .boxed()
 }
 
+/// Wide sources: relationship (and sometimes node) id ranges that cross the 64-bit word
+/// boundaries of the export's id bitmap (totals around 63-66, 127-130, 191-194, 200-260), with
+/// a generated set of deletions (none / early / late / scattered / the whole first word / all but
+/// the last few) so that the number of live ids is smaller than the largest one. Built through
+/// the store API; most elements carry no properties, a handful carry boundary values.
+fn wide_strategy() -> BoxedStrategy<GraphCase> {
+    let total = prop_oneof![3 => 63usize..=66, 3 => 127usize..=130, 2 => 191usize..=194, 2 => 200usize..=260];
+    let nodes_n = prop_oneof![5 => 2usize..=8, 1 => 63usize..=66, 1 => 127usize..=130, 1 => 200usize..=230];
+    let edges_raw = proptest::collection::vec((any::<u16>(), any::<u16>(), 0u8..3, any::<bool>()), 260);
+    let heavy_edges = proptest::collection::vec((any::<u16>(), key_strategy(false), wild_value().prop_map(PV)), 0..=5);
+    let heavy_nodes = proptest::collection::vec((any::<u16>(), key_strategy(false), wild_value().prop_map(PV)), 0..=5);
+    // (edge deletion pattern, count, per-id bits), (node deletion pattern, count)
+    let edge_del = (prop_oneof![1 => Just(0u8), 3 => Just(1u8), 1 => Just(2u8), 3 => Just(3u8), 2 => Just(4u8), 1 => Just(5u8), 1 => Just(6u8)], 1usize..40, proptest::collection::vec(proptest::bool::weighted(0.25), 260));
+    let node_del = (prop_oneof![4 => Just(0u8), 1 => Just(1u8), 1 => Just(3u8), 1 => Just(4u8)], 1usize..20, proptest::collection::vec(proptest::bool::weighted(0.2), 230));
+    // 0 all row, 1 all stub, 2 mixed; tier / late-creation switches
+    let shape = (0u8..3, proptest::bool::weighted(0.2), proptest::bool::weighted(0.25), proptest::bool::weighted(0.15), 0usize..6, prop_oneof![3 => Just(3u32), 1 => Just(0u32), 1 => Just(9u32)]);
+    (total, nodes_n, edges_raw, heavy_edges, heavy_nodes, edge_del, node_del, shape)
+        .prop_map(|(total, nodes_n, edges_raw, heavy_edges, heavy_nodes, (ep, ecount, ebits), (np, ncount, nbits), (via_mode, finish_first, late_edges, compact_last, late_n, level))| {
+            let labels = ["A", "B", "C"];
+            let types = ["R", "S", "T"];
+            let mut g = GraphCase { nodes: Vec::new(), edges: Vec::new(), edits: Vec::new(), hier: Vec::new(), level, id_key: default_id_key() };
+            for i in 0..nodes_n {
+                g.nodes.push(NodeSpec { uid: 1 + i as i64, labels: vec![labels[i % 3].to_string()], props: Vec::new(), via: if via_mode == 2 { (i % 2) as u8 } else { via_mode } });
+            }
+            for (sel, k, v) in heavy_nodes {
+                let i = pick_idx(sel, nodes_n);
+                g.nodes[i].props.push((k, v));
+            }
+            for (s, d, ty, stub) in edges_raw.into_iter().take(total) {
+                let via = match via_mode {
+                    0 => VIA_ROW,
+                    1 => VIA_STUB,
+                    _ => {
+                        if stub {
+                            VIA_STUB
+                        } else {
+                            VIA_ROW
+                        }
+                    }
+                };
+                g.edges.push(EdgeSpec { src: pick_idx(s, nodes_n), dst: pick_idx(d, nodes_n), ty: types[ty as usize].to_string(), props: Vec::new(), via });
+            }
+            for (sel, k, v) in heavy_edges {
+                let i = pick_idx(sel, total);
+                g.edges[i].props.push((k, v));
+            }
+            if finish_first {
+                g.edits.push(Edit::FinishBulk);
+            }
+            let pattern = |p: u8, count: usize, bits: &[bool], n: usize| -> Vec<usize> {
+                match p {
+                    0 => Vec::new(),
+                    1 => (0..count.min(n.saturating_sub(1))).collect(),                       // early
+                    2 => (n.saturating_sub(count)..n).collect(),                              // late
+                    3 => (0..n).filter(|i| bits.get(*i).copied().unwrap_or(false)).collect(), // scattered
+                    4 => (0..63.min(n.saturating_sub(1))).collect(),                          // the whole first word
+                    5 => (0..n).filter(|i| *i < count || bits.get(*i).copied().unwrap_or(false)).collect(),
+                    _ => (0..n.saturating_sub(3)).collect(),                                  // all but the last few
+                }
+            };
+            for i in pattern(ep, ecount, &ebits, total) {
+                g.edits.push(Edit::DeleteEdge { edge: i });
+            }
+            if nodes_n >= 60 {
+                for i in pattern(np, ncount, &nbits, nodes_n) {
+                    g.edits.push(Edit::DeleteNode { node: i });
+                }
+            }
+            if late_edges {
+                // a few late creations take recycled ids from the free list
+                for k in 0..late_n {
+                    g.edits.push(Edit::AddEdge(EdgeSpec { src: (k * 7) % nodes_n, dst: (k * 3 + 1) % nodes_n, ty: "R".to_string(), props: Vec::new(), via: (k % 2) as u8 }));
+                }
+            }
+            if compact_last {
+                g.edits.push(Edit::Compact);
+            }
+            g
+        })
+        .boxed()
+}
+
 fn case_hash(case: &impl Serialize) -> u64 {
     fnv_str(&serde_json::to_string(case).unwrap())
 }
@@ -1202,7 +1303,7 @@ fn c12(args: &Args) {
     let mut ev = Evidence::new(
         args,
         "exploration",
-        "random graphs (0-6 nodes, label sets incl. empty/multi, 0-8 relationships incl. parallel and self-loops, boundary property values) built through the row API, the stub API and Cypher, then edited (set/remove property, column-only set, add/remove label, delete, late create, compaction, finish_bulk_load, version bump) with 0-2 hierarchy declarations; export at gzip level 0/3/9, import into an empty store, uid-keyed typed dump (labels, label-index visibility, values by type and bit pattern, relationship multiset, hierarchy declarations) must equal the original's. Non-trivial = graph has >= 1 relationship and >= 1 value outside plain ASCII/int; distinct = distinct generated cases.",
+        "random graphs (0-6 nodes, label sets incl. empty/multi, 0-8 relationships incl. parallel and self-loops, boundary property values) built through the row API, the stub API and Cypher, then edited (set/remove property, column-only set, add/remove label, delete, late create, compaction, finish_bulk_load, version bump) with 0-2 hierarchy declarations; plus a population of wide sources (relationship id ranges of about 63-66, 127-130, 191-194, 200-260 allocated ids, sometimes as many nodes, with deletions early / late / scattered / of the whole first 64-id word so that live count < largest id, a few late creations on recycled ids, mixed stub/row/frozen tiers); export at gzip level 0/3/9, import into an empty store, uid-keyed typed dump (labels, label-index visibility, values by type and bit pattern, relationship multiset, hierarchy declarations) must equal the original's. Non-trivial = graph has >= 1 relationship and >= 1 value outside plain ASCII/int; distinct = distinct generated cases.",
     );
     ev.assume("a null-valued property is compared as an absent property (openCypher has no null-valued properties)");
     ev.assume("a hierarchy declaration the store itself refuses (cyclic covering relation) is not part of the original graph");
@@ -1267,6 +1368,21 @@ fn c12(args: &Args) {
                 if info.cypher_used > 0 {
                     ev.class("built_via_cypher");
                 }
+                if info.edge_ids_cross_word {
+                    ev.class("edge_ids_cross_word_boundary");
+                    if info.ids_with_holes {
+                        ev.class("edge_ids_cross_word_boundary_with_holes");
+                    }
+                }
+                if info.edge_words_by_count_lt_by_max {
+                    ev.class("edge_id_words_by_count_lt_words_by_max");
+                }
+                if info.node_ids_cross_word {
+                    ev.class("node_ids_cross_word_boundary");
+                }
+                if info.ids_with_holes {
+                    ev.class("ids_with_holes_max_gt_count");
+                }
                 if info.import_refused {
                     ev.refusal();
                 }
@@ -1319,6 +1435,20 @@ fn c12(args: &Args) {
             failure = Some((case, msg));
         }
     }
+    if failure.is_none() {
+        // wide sources (id ranges crossing bitmap word boundaries, with holes)
+        let n = args.tier.pick(400u32, 20_000u32);
+        let strat = wide_strategy();
+        let evc = RefCell::new(&mut ev);
+        let res = search(args.seed ^ 0x5a5a, n, &strat, |case| {
+            let mut e = evc.borrow_mut();
+            run_one(&mut e, case, "generated_wide_id_ranges")
+        });
+        drop(evc);
+        if let Some((case, msg)) = res {
+            failure = Some((case, msg));
+        }
+    }
     quiet.off();
     if let Some((case, msg)) = failure {
         let min = c12_shrink(case, enabled);
@@ -1356,12 +1486,20 @@ fn c12_shrink(case: GraphCase, enabled: u16) -> GraphCase {
             }
         }
         for i in (0..best.edges.len()).rev() {
-            // edits refer to edges by index: only drop trailing-safe edges when no edit names an edge
-            if best.edits.iter().any(|e| matches!(e, Edit::SetEdgeProp { .. } | Edit::DeleteEdge { .. })) {
-                break;
+            if i >= best.edges.len() {
+                continue;
             }
+            // edits refer to relationships by creation index: drop those naming i, shift the later ones
             let mut c = best.clone();
             c.edges.remove(i);
+            c.edits.retain(|e| !matches!(e, Edit::SetEdgeProp { edge, .. } | Edit::DeleteEdge { edge } if *edge == i));
+            for e in c.edits.iter_mut() {
+                if let Edit::SetEdgeProp { edge, .. } | Edit::DeleteEdge { edge } = e {
+                    if *edge > i {
+                        *edge -= 1;
+                    }
+                }
+            }
             if fails(&c) {
                 best = c;
                 changed = true;
